@@ -142,6 +142,42 @@ PROPS["C11"] = dict(
          "harness/migrate/zz_verif_c11.go, engine, z3, environment models.",
 )
 
+PROPS["C06"] = dict(
+    MIGRATE,
+    runs={
+        "quick": [
+            dict(harness="VerifHarness_C06_quick", reach=["validates", "rejected"]),
+            dict(harness="VerifHarness_C06_ignore", reach=["validates", "rejected"]),
+            dict(harness="VerifHarness_C06_ignore_witness", role="witness", key="C06-ignored-files"),
+        ],
+        "thorough": [
+            dict(harness="VerifHarness_C06_thorough", reach=["validates", "rejected"]),
+            dict(harness="VerifHarness_C06_ignore3", reach=["validates", "rejected"]),
+            dict(harness="VerifHarness_C06_ignore_witness", role="witness", key="C06-ignored-files"),
+        ],
+    },
+    bounds={
+        "quick": "original directory D: 0..3 files named b/d/f.sql with 4 fully symbolic content bytes each; validated directory D': 0..3 files with "
+                 "symbolic one-letter names (sorted, distinct) and 4 symbolic content bytes each; sum-ignore family: 0..2 files, each optionally "
+                 "starting with the concrete '-- atlas:sum ignore' line followed by 1 symbolic byte",
+        "thorough": "0..4 files x 6 symbolic content bytes (the longest content that cannot itself spell an atlas: directive); sum-ignore family "
+                    "0..3 files x 2 bytes; unsat answers cross-checked",
+    },
+    assumptions=[
+        "SHA-256 is an injective opaque token of its pre-image, base64 of a token is an opaque token string (Dolev-Yao); a token never equals attacker-chosen bytes",
+        "real MemDir, NewHashFile, WriteSumFile, HashFile.{Sum,MarshalText,UnmarshalText,SumByName}, Validate, readHashFile are executed; bufio/bytes from source",
+        "two arbitrary directories subsume single and compound edits (add anywhere, remove, rename, edit any byte, swap)",
+    ],
+    outside="SHA-256 collisions; LocalDir / OS file system; tar archives; edits of the atlas.sum text itself; the Planner writers (WritePlan, "
+            "WriteCheckpoint) and CLI commands hash/import; contents of 7+ bytes that spell their own directive",
+    claim="For every pair of directories within the bounds (all content bytes and the edited directory's names are solver variables), the real "
+          "Validate succeeds iff the directory is unchanged, reports tampering as ChecksumError/ErrChecksumMismatch, and an untouched directory "
+          "validates. With files carrying the documented 'atlas:sum ignore' directive the exact detected region (hashed view) is asserted instead "
+          "and the undetected remainder is the listed known finding.",
+    note="Bounded. Hash abstraction as above (collision freedom is an assumption, not checked). Trusted: engine (incl. its regexp matcher, "
+         "pruned by minimal match length), z3, oracle functions verifSameDir / verifHashedViewEq.",
+)
+
 NOT_APPLICABLE = {
     "C01": "needs a real SQLite engine executing the planned SQL and pragma-based inspection; neither cgo code nor SQLite's DDL "
            "semantics can be encoded by an SSA-level symbolic executor, and a hand-written catalogue model would verify the model, not Atlas "
